@@ -7,6 +7,7 @@ for f in sorted(glob.glob('/verif/seeded/*/meta.json')):
     needs = (m.get('needs') or '').strip().splitlines()
     first = next((l.strip('# ').strip() for l in needs if l.strip()), '')
     rows.append("| %s | %s | %s | %s | %s |" % (m['id'], m['property'], 'yes' if m.get('confirmed') else 'NO',
-                ', '.join(m.get('detected_by', [])) or '**missed**', first[:110].replace('|', '/')))
+                ', '.join(m.get('detected_by', [])) or ('**missed**' if m.get('confirmed') else 'n/a (does not break the property on the current tree)'), first[:110].replace('|', '/')))
 open('/verif/seeded/INDEX.md', 'w').write("# Seeded changes\n\n| id | property | confirmed | detected by (quick tier) | change |\n|---|---|---|---|---|\n" + "\n".join(rows) + "\n")
-print(len(rows), "entries")
+conf = [r for r in rows if "| yes |" in r]
+print(len(rows), "entries,", len(conf), "confirmed,", sum("**missed**" in r for r in conf), "missed")
